@@ -137,13 +137,18 @@ def gen_legacy(rng, version, path):
     for n in names:
         fn = "".join(c + "_" if c.isupper() else c for c in n) + ".glif"
         contents[n] = fn
-        pts = ""
-        if rng.random() < 0.8:
-            pts = ('    <contour>\n      <point x="0" y="0" type="line"/>\n      <point x="%d" y="10.5" type="line"/>\n'
-                   '      <point x="5" y="5"/>\n      <point x="7" y="%d" type="qcurve" smooth="yes"/>\n    </contour>\n'
-                   % (rng.randint(-50, 500), rng.randint(0, 700)))
-        if rng.random() < 0.5:
-            pts += '    <contour>\n      <point x="10" y="%d" type="move" name="top"/>\n    </contour>\n' % rng.randint(0, 800)
+        # real contours and implicit-anchor contours (a single named move point) in any order: the
+        # format-1 upgrade turns the latter into anchors and must not leave an empty contour behind
+        cs = []
+        for _ in range(rng.choice([0, 1, 1, 2, 3])):
+            cs.append('    <contour>\n      <point x="0" y="0" type="line"/>\n      <point x="%d" y="10.5" type="line"/>\n'
+                      '      <point x="5" y="5"/>\n      <point x="7" y="%d" type="qcurve" smooth="yes"/>\n    </contour>\n'
+                      % (rng.randint(-50, 500), rng.randint(0, 700)))
+        for _ in range(rng.choice([0, 0, 1, 1, 2])):
+            cs.append('    <contour>\n      <point x="10" y="%d" type="move" name="%s"/>\n    </contour>\n'
+                      % (rng.randint(0, 800), rng.choice(["top", "bottom", "_top"])))
+        rng.shuffle(cs)
+        pts = "".join(cs)
         if rng.random() < 0.3 and n != "A":
             pts += '    <component base="A" xOffset="%d"/>\n' % rng.randint(-5, 5)
         glif = ('<?xml version="1.0" encoding="UTF-8"?>\n<glyph name="%s" format="1">\n  <advance width="%s"/>\n%s  <outline>\n%s  </outline>\n%s</glyph>\n'
@@ -171,7 +176,7 @@ def mutate(rng, ufo):
     kind = rng.choice(["drop_optional", "drop_layerinfo", "comment_plist", "decl", "crlf_plist", "move_default",
                        "orphan_object_libs", "meta_minor", "bom", "extra_file", "glif_attr_order", "truncate_features",
                        "dup_layer_entry", "empty_groups", "glif_formatminor", "objlibs_unknown_id",
-                       "dup_layer_name", "reserved_name", "dup_glif_file"])
+                       "dup_layer_name", "reserved_name", "dup_glif_file", "case_dup_layer_dir", "case_dup_glif"])
 
     def rd(p):
         with open(p, "rb") as f:
@@ -276,6 +281,37 @@ def mutate(rng, ufo):
                 os.makedirs(P(newdir))
                 wr(P(newdir, "contents.plist"), plist_doc({}))
             wr(p, b.replace(m.group(0), m.group(0) + "\n<array><string>%s</string><string>%s</string></array>" % (name, newdir), 1).encode("utf-8"))
+    elif kind == "case_dup_layer_dir":
+        # a further layer whose directory differs from an existing one only in (ASCII) case:
+        # glyphs.A_ / glyphs.a_, Glyphs / glyphs
+        p = P("layercontents.plist")
+        b = rd(p).decode("utf-8")
+        dirs = re.findall(r"<array>\s*<string>.*?</string>\s*<string>(.*?)</string>\s*</array>", b, re.S)
+        cands = [d for d in dirs if d.swapcase() != d and "&" not in d and "<" not in d and not os.path.exists(P(d.swapcase()))]
+        if cands:
+            d = rng.choice(cands)
+            v = "".join(c.swapcase() if c.isascii() else c for c in d)
+            m = re.search(r"</array>\s*</plist>", b)
+            if m and v != d and not os.path.exists(P(v)):
+                os.makedirs(P(v))
+                wr(P(v, "contents.plist"), plist_doc({}))
+                wr(p, (b[:m.start()] + "<array><string>case variant layer</string><string>%s</string></array>" % v + b[m.start():]).encode("utf-8"))
+    elif kind == "case_dup_glif":
+        # a further glyph whose glif file name differs from an existing one only in (ASCII) case: x.glif / X.GLIF
+        c = [x for x in _files(ufo, "contents.plist")]
+        rng.shuffle(c)
+        for p in c:
+            b = rd(p).decode("utf-8")
+            m = re.search(r"<key>.*?</key>\s*<string>(.*?)</string>", b, re.S)
+            if m and "&" not in m.group(1) and "<" not in m.group(1):
+                fn = m.group(1)
+                v = "".join(ch.swapcase() if ch.isascii() else ch for ch in fn)
+                src = os.path.join(os.path.dirname(p), fn)
+                dst = os.path.join(os.path.dirname(p), v)
+                if v != fn and os.path.exists(src) and not os.path.exists(dst):
+                    shutil.copyfile(src, dst)
+                    wr(p, b.replace(m.group(0), m.group(0) + "<key>zz.case.variant</key><string>%s</string>" % v, 1).encode("utf-8"))
+                    break
     elif kind == "dup_glif_file":
         c = [x for x in _files(ufo, "contents.plist")]
         rng.shuffle(c)
@@ -428,6 +464,9 @@ def run(ctx, known, built):
                              ("DuplicateGlyphFileName", 15)):
                 if pat in err:
                     code = cd_
+                    stats["refused_" + pat] += 1
+                    if any(mu.startswith("case_dup") for mu in (info.get("mutations") or [])):
+                        stats["refused_case_variant_inputs"] += 1
             if code is not None and "crlf_plist" not in (info.get("mutations") or []):
                 try:
                     t_in = fc.read_tree(os.path.join(cd, "in.ufo"))
@@ -455,7 +494,7 @@ def run(ctx, known, built):
         else:
             second = _load(os.path.join(cd, "second.json"))
             stats["fixed_point_checks"] += 1
-            d, obs = fc.equal(second, first, tol=0.0, ignore_creator=True)
+            d, obs = fc.equal(second, first, strip="none", tol=0.0, ignore_creator=True)
             outside = []
             for path, got, want in d:
                 c = fc.classify_diff(first, path, got, want)
@@ -554,7 +593,7 @@ def replay(ctx, path):
         if os.path.exists(os.path.join(cd, f)):
             print(f, ":", open(os.path.join(cd, f)).read()[:500])
     if os.path.exists(os.path.join(cd, "second.json")):
-        dd, _ = fc.equal(_load(os.path.join(cd, "second.json")), _load(os.path.join(cd, "first.json")), tol=0.0)
+        dd, _ = fc.equal(_load(os.path.join(cd, "second.json")), _load(os.path.join(cd, "first.json")), strip="none", tol=0.0)
         print("differences between load(save(load(x))) and load(x):", len(dd))
         for p, g, w in dd[:6]:
             print("  ", p, "second =", fc.short(g), " first =", fc.short(w))
